@@ -157,11 +157,19 @@ func ReaderFromDelta(base plumbing.EncodedObject, deltaRC io.Reader) (io.ReadClo
 			switch {
 			case isCopyFromSrc(cmd):
 				offset, err := decodeOffsetByteReader(cmd, deltaBuf)
+				if err == io.EOF {
+					_ = dstWr.CloseWithError(ErrInvalidDelta)
+					return
+				}
 				if err != nil {
 					_ = dstWr.CloseWithError(err)
 					return
 				}
 				sz, err := decodeSizeByteReader(cmd, deltaBuf)
+				if err == io.EOF {
+					_ = dstWr.CloseWithError(ErrInvalidDelta)
+					return
+				}
 				if err != nil {
 					_ = dstWr.CloseWithError(err)
 					return
